@@ -49,7 +49,7 @@ class TalCheck(CheckBase):
         base = run_real(template, tmpl, [], None)
         plans = gen_fault_plans(ch, tmpl, base["history"], case["nplans"])
         out = [([], None), ([], {})]
-        base_sites = set(base["history"])
+        base_sites = set(base["history"]) | {"T"}
         for p in plans:
             h = ch.weighted([(4, None), (4, {}),
                              (1, {"fail_with": "RuntimeError"})])
@@ -58,8 +58,8 @@ class TalCheck(CheckBase):
             # faults of this plan (on-error fallback expressions, later
             # pipe alternatives, default branches) get faults of their own
             m = run_model(tmpl, p, h)
-            new = sorted(set(m["history"]) - base_sites -
-                         {f["site"] for f in p})
+            new = sorted(k for k in set(m["history"]) - base_sites -
+                         {f["site"] for f in p} if k != "T")
             if new and ch.coin(0.7):
                 k = ch.pick(new)
                 cls = ch.weighted([(3, ch.pick(UNCAUGHT_NAMES)),
